@@ -316,7 +316,8 @@ fn emph_size(rng: &mut Rng) -> usize {
 pub fn make_enrs(seed: u64) -> Vec<Enr> {
     let mut rng = Rng::new(seed ^ 0xE17A_5EED);
     let mut out = vec![];
-    let targets = [100usize, 130, 170, 220, 260, 290, 300];
+    // the first one is the smallest record the builder makes (no address, no padding)
+    let targets = [0usize, 130, 170, 220, 260, 290, 300];
     for (i, t) in targets.iter().enumerate() {
         let key = loop {
             let mut b = rng.bytes(32);
@@ -330,7 +331,7 @@ pub fn make_enrs(seed: u64) -> Vec<Enr> {
         loop {
             let mut b = Enr::builder();
             b.seq(1 + i as u64 * 1000 + rng.below(1000));
-            if i % 2 == 0 {
+            if i % 2 == 0 && i > 0 {
                 b.ip4(std::net::Ipv4Addr::new(10, 1, i as u8, 7));
                 b.udp4(9000 + i as u16);
             }
@@ -341,11 +342,11 @@ pub fn make_enrs(seed: u64) -> Vec<Enr> {
             match b.build(&key) {
                 Ok(e) => {
                     let n = alloy_rlp::encode(&e).len();
-                    if n > *t {
+                    if n > *t && *t > 0 {
                         break;
                     }
                     best = Some(e);
-                    if n == *t {
+                    if n == *t || *t == 0 {
                         break;
                     }
                     pad += 1;
@@ -1112,7 +1113,7 @@ pub fn main(args: &[String]) {
     let mut canon: BTreeSet<u64> = BTreeSet::new();
     let mut seen_sig: BTreeSet<String> = BTreeSet::new();
     for e in &enrs {
-        sum.hist.add(&format!("record-size/{}", alloy_rlp::encode(e).len() / 50 * 50));
+        sum.hist.add(&format!("record-size/{}", alloy_rlp::encode(e).len()));
     }
     // the constants the monitor takes from the specification must be the implementation's
     for (name, v) in packet_constants() {
@@ -1189,6 +1190,20 @@ pub fn main(args: &[String]) {
     w.flush();
     sum.case_files = w.files.clone();
     sum.rule = "packets of the three kinds built from one PRNG (signature/key sizes 0..255 with emphasis on 0,1,33,64,255; real signed records of 100-300 bytes; bodies 0..maximum) encoded and decoded by the real Packet::encode/Packet::decode, plus datagrams malformed in the unmasked domain and re-masked with the real AES-CTR keystream (20 classes, cycled); a case is non-trivial if the decoder returned Ok or failed at a guard other than the two length tests, and distinct if the hash of (class outcome, datagram length, field sizes) is new in this run".into();
+    let count = |k: &str| -> i64 { sum.hist.0.get(k).copied().unwrap_or(0) as i64 };
+    let notes = J::obj(vec![
+        (
+            "handshakes_accepted_with_ignored_bytes_after_the_record (known looseness, not claimed by the property: encode(decode(bs)) != bs)",
+            J::I(count("looseness/record-accepted-with-ignored-trailing-bytes")),
+        ),
+        (
+            "datagrams_accepted_by_an_id_sharing_the_first_16_bytes_of_the_destination (masking-key = dest-id[:16] by the specification)",
+            J::I(count("note/id-with-same-16-byte-prefix-accepts (masking-key = dest-id[:16])")),
+        ),
+        ("datagrams_for_another_id_rejected", J::I(count("other-id/rejected"))),
+        ("round_trips_checked", J::I(count("roundtrip/ok"))),
+    ]);
+    sum.extra.push(("x_c05_notes".to_string(), notes));
     sum.write(&o.out);
     println!(
         "pkt: {} cases, {} steps, {} distinct non-trivial, {} monitor failure signatures",
